@@ -31,7 +31,7 @@ def tlc_cases_to_jobs(cases, tier, seed):
                 continue
         else:
             d = "local" if h >= 400 else ("push" if h < 200 else "pull")
-        secs = [[1_700_000_000, 2**31, 1], [0, 1, 2**33], [2**32 + 1, 0, 5], [2**31 - 1, 2**31, 0]][i % 4]
+        secs = [[1_700_000_000, 2**31, 1], [0, 1, 2**33], [2**32 + 1, 0, 5], [2**31 - 1, 2**31, 0], [-86400, -1, 3]][i % 5]
         jobs.append({"id": f"t{i}", "names": names, "secs": secs,
                      "src": [list(x) for x in c["src"]], "dst": [list(x) for x in c["dst"]],
                      "pats": ["".join(p) for p in c["pats"]], "del": c["del"], "dry": c["dry"], "dir": d, "jobs": [1, 2, 4][i % 3]})
